@@ -688,6 +688,68 @@ int main(void) {
                 s_print_dlog();
                 s_state_lines(t[1], &s_tab[a]);
             }
+        } else if (!strcmp(t[0], "putn") && n == 4 && (a = s_tab_idx(t[1])) >= 0 && s_parse_key(t[2], &key) &&
+                   s_parse_val(t[3], &val)) {
+            /* the optional out-parameters left out: put(map, key, value, NULL) */
+            if (!s_tab[a].p_impl) {
+                puts("P nil");
+                continue;
+            }
+            int rc = aws_hash_table_put(&s_tab[a], key, val, NULL);
+            s_stale(a, -1);
+            if (rc) {
+                printf("P putn %s\n", hc_last_error_name());
+            } else {
+                puts("P putn OK");
+                s_print_dlog();
+                s_state_lines(t[1], &s_tab[a]);
+            }
+        } else if (!strcmp(t[0], "createn") && n == 4 && (a = s_tab_idx(t[1])) >= 0 && s_parse_key(t[2], &key) &&
+                   (!strcmp(t[3], "e") || !strcmp(t[3], "c") || !strcmp(t[3], "-"))) {
+            /* create with p_elem and / or was_created NULL: e = only p_elem passed, c = only was_created passed, - = neither */
+            if (!s_tab[a].p_impl) {
+                puts("P nil");
+                continue;
+            }
+            int created = -1;
+            struct aws_hash_element *el = NULL;
+            int rc = aws_hash_table_create(&s_tab[a], key, t[3][0] == 'e' ? &el : NULL, t[3][0] == 'c' ? &created : NULL);
+            s_stale(a, -1);
+            if (rc) {
+                printf("P createn %s\n", hc_last_error_name());
+            } else {
+                char bb[128] = "-";
+                if (t[3][0] == 'e') {
+                    s_fmt_kv(bb, el->key, el->value);
+                }
+                if (t[3][0] == 'c') {
+                    printf("P createn OK created=%d %s\n", created, bb);
+                } else {
+                    printf("P createn OK created=? %s\n", bb);
+                }
+                s_state_lines(t[1], &s_tab[a]);
+            }
+        } else if (!strcmp(t[0], "removen") && n == 4 && (a = s_tab_idx(t[1])) >= 0 && s_parse_key(t[2], &key) &&
+                   (!strcmp(t[3], "out") || !strcmp(t[3], "noout"))) {
+            /* remove(map, key, p_value or NULL, NULL): was_present left out */
+            if (!s_tab[a].p_impl) {
+                puts("P nil");
+                continue;
+            }
+            bool want = !strcmp(t[3], "out");
+            struct aws_hash_element out;
+            AWS_ZERO_STRUCT(out);
+            HC_CHECK(aws_hash_table_remove(&s_tab[a], key, want ? &out : NULL, NULL) == AWS_OP_SUCCESS);
+            s_stale(a, -1);
+            if (want && (out.key || out.value)) {
+                char bb[128];
+                s_fmt_kv(bb, out.key, out.value);
+                printf("P removen %s\n", bb);
+            } else {
+                puts("P removen -");
+            }
+            s_print_dlog();
+            s_state_lines(t[1], &s_tab[a]);
         } else if (!strcmp(t[0], "create") && n == 3 && (a = s_tab_idx(t[1])) >= 0 && s_parse_key(t[2], &key)) {
             if (!s_tab[a].p_impl) {
                 puts("P nil");
